@@ -119,6 +119,23 @@ CHECKS.update({
         technique=MC, design="6/C16"),
 })
 
+S2 = ("symbolic execution of rustc MIR (path enumeration) of the parser, the oq3_syntax accessors and all of oq3_semantics on an abstract "
+      "syntax tree built by the interpreted parser + z3 SMT feasibility/obligation queries, native replay")
+CHECKS.update({
+    "C03": dict(
+        text="Programs = a fixed preamble of declarations followed by one statement skeleton of the reference grammar; token-class slots, "
+             "operator spellings and identifier roles (int variable, qubit, gate, subroutine, undeclared) are solver choices. The real parser "
+             "and validation (MIR) build the tree, programs with syntax diagnostics are skipped, then ALL of syntax_to_semantic runs from MIR. "
+             "Obligations on every path: no panic/unwrap/todo!/unreachable!, bounded steps, symbol table back at the global scope. "
+             "Panics are reproduced natively before they count; the analyser's documented crash sites are listed in known_findings.json "
+             "by (function, message, skeleton).",
+        note="Trusted: rowan tree model (ordered tree built from the parser's own events), hashbrown map model, string/text-range models, "
+             "MIR dump, z3; engine validated differentially against the native pipeline on the repository's own test programs (vf/s2validate). "
+             "Bounds: one statement after the preamble, expression depth 0 (quick) / 1 (thorough); skeletons with <= 600 / 8000 slot "
+             "combinations completely, larger ones as Hamming balls of radius 2 / 3 around three base assignments; one spelling per literal class.",
+        technique=S2, design="6/C03"),
+})
+
 NOT_YET = {}
 
 
